@@ -71,6 +71,12 @@ func ReadMultipartForm(r io.Reader, boundary string, size, maxInMemoryFileSize i
 	if err != nil {
 		return nil, fmt.Errorf("cannot read multipart/form-data body: %s", err)
 	}
+	// The form reader stops at the closing boundary. Whatever follows it (the epilogue) still belongs
+	// to these size bytes: take it out of r too, otherwise it is left behind for the next reader of r.
+	if _, err = io.Copy(io.Discard, lr); err != nil {
+		f.RemoveAll() //nolint:errcheck
+		return nil, fmt.Errorf("cannot read multipart/form-data body: %s", err)
+	}
 	return f, nil
 }
 
